@@ -260,7 +260,10 @@ def evaluate(ctx, cases):
             a, b, code = c["cp"], 0, 3
         else:
             a, b, code = z, 0, 4
-        model.setdefault((KIND_CODE[kind], size, code, a, b, got), c)
+        if ctx.thorough or code != 1 or (a + b) % 2 == 0 or abs(a) < 8:
+            # quick: every non-float source, about half of the float sources (all are still checked
+            # against the definition and gcc above)
+            model.setdefault((KIND_CODE[kind], size, code, a, b, got), c)
     for c in cases[:2] + cases[len(cases) // 2:len(cases) // 2 + 2] + cases[-2:]:
         ctx.sample(c)
     # ---- gcc: the same conversion compiled, wherever C defines it
